@@ -42,6 +42,9 @@ def mk_obs(name, layout, ctx, shape=None, min_len=MIN_CHAIN, analysed=False):
         x = spec.make("%s.idl.%s" % (name, cn), ctx, shp)
         idl.d[cn] = x
         n = Len(x)
+        if kind == "list":
+            # wf: a configuration list is held as a list only when it is not equally spaced
+            ctx.assume(Not(ForAll(0, n - 1, lambda k, x=x: At(x, k + 1) - At(x, k) == At(x, 1) - At(x, 0))))
         d = Seq("real", "ndarray", min_len).make("%s.deltas.%s" % (name, cn), ctx, shp)
         if shp is None:
             ctx.assume(compare("==", d.length, n))
